@@ -69,8 +69,20 @@ RULE = ("(a) crash points: one template load through FileSystemBytecodeCache is 
         "whether it compiles) are run, through the same load A / load B / load A history, "
         "configurations and backends as (e). Oracle everywhere: result == load+render of the "
         "CURRENT source compiled without any cache in the LOADING environment; no exception (except "
-        "the client's own one when ignore_memcache_errors is off). distinct = distinct (part, "
-        "template, loader, fault position/kind or schedule) cases")
+        "the client's own one when ignore_memcache_errors is off). (h) one file / one source reachable "
+        "under SEVERAL TEMPLATE NAMES through one cache directory: loader topologies FileSystemLoader "
+        "with nested search paths, ChoiceLoader over overlapping directories, ChoiceLoader of a "
+        "PrefixLoader and a FileSystemLoader, PrefixLoader with two mounts over nested directories, a "
+        "FunctionLoader answering several names with one file (same filename), a DictLoader holding one "
+        "source under two names (no filename) x templates whose meaning depends on the name they were "
+        "requested by (plain control, {{ self }}, relative include / extends / import resolved by an "
+        "Environment.join_path override; Template.name is observed too) x every history of length<=3 "
+        "(thorough: <=4 over two names, <=3 over three names) over {load name_i, modify source, clear} "
+        "ending in a load x {fresh environment per load, one environment}; oracle: rendering and "
+        "Template.name of the same name loaded through the same loaders without a cache. "
+        "distinct = distinct (part, "
+        "template, loader, fault position/kind or schedule) cases; for (h) histories loading at least "
+        "two names")
 LEVEL_TEXT = ("held on every enumerated crash point / offset / history / fault script / two-writer schedule; crash atomicity is "
               "claimed at the granularity of Python-level write calls and audit events (plus one torn "
               "write per call), not for arbitrary kernel-level partial writes")
@@ -125,7 +137,17 @@ FLOORS = {
                            "duel_second_writer_complete_in_between": 48,
                            "duel_clear_in_between": 8, "duel_writers_hold_different_sources": 64,
                            "duel_interrupted_at_write-event": 55,
-                           "duel_interrupted_at_audit-event": 22}},
+                           "duel_interrupted_at_audit-event": 22,
+                           "alias_histories": 300, "alias_loads": 580,
+                           "alias_loads_after_another_name_of_the_file": 120,
+                           "alias_loads_after_another_name_that_renders_differently": 100,
+                           "alias_topology_fs-nested-searchpath": 50, "alias_topology_choice-of-fs": 50,
+                           "alias_topology_choice-of-prefix-and-fs": 50,
+                           "alias_topology_prefix-two-mounts": 50,
+                           "alias_topology_function-loader-one-file": 50,
+                           "alias_topology_dict-same-source": 50,
+                           "alias_kind_self": 60, "alias_kind_include-relative": 60,
+                           "alias_kind_extends-relative": 60, "alias_kind_import-relative": 60}},
     "thorough": {"evaluations": 27000, "distinct": 12000,
                  "counters": {"crash_cases": 70, "real_deaths": 70, "crash_write_events": 47,
                               "crash_audit_events": 25, "reader_loads": 290, "trunc_offsets": 3800,
@@ -161,7 +183,18 @@ FLOORS = {
                               "duel_clear_in_between": 24,
                               "duel_writers_hold_different_sources": 1600,
                               "duel_interrupted_at_write-event": 1100,
-                              "duel_interrupted_at_audit-event": 450}},
+                              "duel_interrupted_at_audit-event": 450,
+                              "alias_histories": 2100, "alias_loads": 4900,
+                              "alias_loads_after_another_name_of_the_file": 1200,
+                              "alias_loads_after_another_name_that_renders_differently": 1000,
+                              "alias_topology_fs-nested-searchpath": 230,
+                              "alias_topology_choice-of-fs": 420,
+                              "alias_topology_choice-of-prefix-and-fs": 420,
+                              "alias_topology_prefix-two-mounts": 420,
+                              "alias_topology_function-loader-one-file": 230,
+                              "alias_topology_dict-same-source": 420,
+                              "alias_kind_self": 430, "alias_kind_include-relative": 430,
+                              "alias_kind_extends-relative": 430, "alias_kind_import-relative": 430}},
 }
 
 NAME = "t.html"
@@ -1366,6 +1399,218 @@ def part_sedits(ctx, store, quick):
                     "b": b[:10] + b[11] + b[10] + b[12:], "config": "default", "backend": "fs"})
 
 
+# ------------- (h) one file / one source reachable under several template names
+# A template's compiled code depends on the NAME it was requested by (Template.name, ``self``,
+# and -- through the documented override point Environment.join_path -- what a relative
+# include / extends / import refers to).  Loader topologies that reach one file under
+# several names, all loads going through one cache.
+ALIAS_KINDS = {
+    "plain": ("v{V} plain {{ x }}", None, None),
+    "self": ("v{V} [{{ self }}]", None, None),
+    "include-relative": ("v{V} [{% include './part.html' %}]", "SUB-PART {{ x }}", "ROOT-PART {{ x }}"),
+    "extends-relative": ("{% extends './part.html' %}{% block b %}v{V}{% endblock %}",
+                         "<SUB {% block b %}{% endblock %}>", "<ROOT {% block b %}{% endblock %}>"),
+    "import-relative": ("{% from './part.html' import tag %}v{V} {{ tag(x) }}",
+                        "{% macro tag(a) %}SUB({{ a }}){% endmacro %}",
+                        "{% macro tag(a) %}ROOT({{ a }}){% endmacro %}"),
+}
+ALIAS_TOPOLOGIES = {  # topology -> names of the SAME main template
+    "fs-nested-searchpath": ["sub/index.html", "index.html", "site/sub/index.html"],
+    "choice-of-fs": ["sub/index.html", "index.html"],
+    "choice-of-prefix-and-fs": ["p/index.html", "sub/index.html"],
+    "prefix-two-mounts": ["a/sub/index.html", "b/index.html"],
+    "function-loader-one-file": ["sub/index.html", "index.html", "alt/index.html"],
+    "dict-same-source": ["sub/index.html", "index.html"],
+}
+_alias_env_classes = {}
+
+
+def alias_env(loader, bcc):
+    """Environment resolving './x' relative to the referring template (join_path is the
+    documented override point for this)."""
+    import posixpath
+
+    from jinja2 import Environment
+
+    cls = _alias_env_classes.get("env")
+    if cls is None:
+        class RelativeEnvironment(Environment):
+            def join_path(self, template, parent):
+                if template.startswith("./"):
+                    return posixpath.normpath(posixpath.join(posixpath.dirname(parent), template))
+                return template
+
+        cls = _alias_env_classes["env"] = RelativeEnvironment
+    return cls(loader=loader, bytecode_cache=bcc, cache_size=0)
+
+
+def alias_write(src_dir, kind, ver):
+    main, sub_part, root_part = ALIAS_KINDS[kind]
+    root = os.path.join(src_dir, "site")
+    os.makedirs(os.path.join(root, "sub"), exist_ok=True)
+    files = {"sub/index.html": main.replace("{V}", str(ver))}
+    if sub_part is not None:
+        files["sub/part.html"] = sub_part
+        files["part.html"] = root_part
+    for rel, text in files.items():
+        with open(os.path.join(root, rel), "w", encoding="utf-8") as f:
+            f.write(text)
+    return files
+
+
+def alias_loader(topo, src_dir, files):
+    from jinja2 import ChoiceLoader, DictLoader, FileSystemLoader, FunctionLoader, PrefixLoader
+
+    root = os.path.join(src_dir, "site")
+    sub = os.path.join(root, "sub")
+    if topo == "fs-nested-searchpath":
+        return FileSystemLoader([root, sub, src_dir])
+    if topo == "choice-of-fs":
+        return ChoiceLoader([FileSystemLoader(root), FileSystemLoader(sub)])
+    if topo == "choice-of-prefix-and-fs":
+        return ChoiceLoader([PrefixLoader({"p": FileSystemLoader(sub)}), FileSystemLoader(root)])
+    if topo == "prefix-two-mounts":
+        # (PrefixLoader hands the name without the prefix to the mounted loader, so relative
+        # references resolve without it: the fallback loader serves those)
+        return ChoiceLoader([PrefixLoader({"a": FileSystemLoader(root), "b": FileSystemLoader(sub)}),
+                             FileSystemLoader(root)])
+    if topo == "function-loader-one-file":
+        def load(name):
+            parts = name.split("/")
+            if ".." in parts:
+                return None
+            for p in (os.path.join(root, *parts), os.path.join(sub, parts[-1])):
+                if os.path.isfile(p):
+                    with open(p, encoding="utf-8") as f:
+                        return f.read(), p, lambda: False
+            return None
+
+        return FunctionLoader(load)
+    mapping = dict(files)  # the same SOURCE under several names, no file name at all
+    mapping["index.html"] = files["sub/index.html"]
+    return DictLoader(mapping)
+
+
+def alias_observe(env, name):
+    try:
+        t = env.get_template(name)
+    except BaseException as e:  # noqa: BLE001
+        return ["exc", "load", type(e).__name__, str(e)[:200]]
+    try:
+        return ["ok", [t.render(**K.render_ctx()), t.name]]
+    except BaseException as e:  # noqa: BLE001
+        return ["exc", "render", type(e).__name__, str(e)[:200]]
+
+
+_alias_ref = {}
+
+
+def alias_history(ctx, store, case):
+    from jinja2 import FileSystemBytecodeCache
+
+    topo, kind, envmode, hist = case["topo"], case["kind"], case["envmode"], case["hist"]
+    names = ALIAS_TOPOLOGIES[topo]
+    cache_dir, src_dir = store.fresh()
+    try:
+        ver = 0
+        files = alias_write(src_dir, kind, ver)
+
+        def ref(name):  # recompile oracle: same loaders, same environment class, no cache
+            k = (topo, kind, name, ver)
+            if k not in _alias_ref:
+                _alias_ref[k] = alias_observe(alias_env(alias_loader(topo, src_dir, files), None), name)
+            return _alias_ref[k]
+
+        one = alias_env(alias_loader(topo, src_dir, files), FileSystemBytecodeCache(cache_dir)) \
+            if envmode == "one" else None
+        held = set()  # names a cache entry for the current source may exist for
+        for step, op in enumerate(hist):
+            if op == "m":
+                ver ^= 1
+                files = alias_write(src_dir, kind, ver)
+                if one is not None and topo == "dict-same-source":
+                    one.loader.mapping.update(alias_loader(topo, src_dir, files).mapping)
+                held = set()
+                continue
+            if op == "c":
+                try:
+                    FileSystemBytecodeCache(cache_dir).clear()
+                except Exception as e:
+                    ctx.violation(f"alias:clear-raises:{type(e).__name__}", str(e), case)
+                held = set()
+                continue
+            name = names[int(op[1:])]
+            env = one if one is not None else alias_env(
+                alias_loader(topo, src_dir, files), FileSystemBytecodeCache(cache_dir))
+            r = alias_observe(env, name)
+            ctx.ev()
+            ctx.count("alias_loads")
+            exp = ref(name)
+            others = [n for n in names if n != name]
+            if held - {name}:
+                ctx.count("alias_loads_after_another_name_of_the_file")
+                if any(not same(ref(n), exp) for n in held - {name}):
+                    ctx.count("alias_loads_after_another_name_that_renders_differently")
+            held.add(name)
+            if not same(r, exp):
+                if r[0] == "ok" and exp[0] == "ok" and r[1][0] == exp[1][0]:
+                    key = f"alias:{topo}:template-name-of-another-name"
+                elif any(same(r, ref(n)) for n in others):
+                    key = f"alias:{topo}:code-of-another-name:{kind}"
+                elif r[0] == "exc":
+                    key = f"alias:{topo}:raises:{kind}"
+                else:
+                    key = f"alias:{topo}:wrong-output:{kind}"
+                ctx.violation(key,
+                              f"history {hist} step {step}: loading {name!r} (names of the same "
+                              f"template here: {names}, source version {ver}, {envmode} environment"
+                              f"{'s' if envmode == 'fresh' else ''}) through the cache gave "
+                              f"[rendering, Template.name] {r}; compiling the current source under "
+                              f"that name without a cache gives {exp}", case)
+                return
+    finally:
+        store.drop(cache_dir)
+
+
+def alias_plan(quick):
+    out = []
+    for topo, names in ALIAS_TOPOLOGIES.items():
+        for nn, L in ((2, 3),) if quick else ((2, 4), (3, 3)):
+            if nn > len(names) or (nn == 2 and not quick and len(names) > 2):
+                continue
+            ops = [f"l{i}" for i in range(nn)] + ["m", "c"]
+            for n in range(1, L + 1):
+                for pre in itertools.product(ops, repeat=n - 1):
+                    for last in ops[:nn]:
+                        out.append((topo, list(pre) + [last]))
+    return out
+
+
+def part_alias(ctx, store, quick):
+    idx = 0
+    for topo, hist in alias_plan(quick):
+        for kind in ALIAS_KINDS:
+            for ei, envmode in enumerate(("fresh", "one")):
+                idx += 1
+                if quick and ei != (idx // 2) % 2:
+                    continue
+                if not ctx.mine(idx):
+                    continue
+                if ctx.out_of_time():
+                    ctx.inconc("time box hit inside the several-names-one-file histories")
+                    return
+                case = {"part": "alias", "topo": topo, "kind": kind, "envmode": envmode, "hist": hist}
+                ctx.count("alias_histories")
+                ctx.count("alias_topology_" + topo)
+                ctx.count("alias_kind_" + kind)
+                if len({o for o in hist if o.startswith("l")}) >= 2:
+                    ctx.dist(("alias", topo, kind, envmode, hist))
+                alias_history(ctx, store, case)
+    if ctx.shard == 0:
+        ctx.sample({"part": "alias", "topo": "fs-nested-searchpath", "kind": "include-relative",
+                    "envmode": "fresh", "hist": ["l0", "l1"]})
+
+
 # ----------------------------------------------------------------- driver
 def warm():
     """Import and exercise everything once in the harness process so that
@@ -1389,6 +1634,7 @@ def run(ctx):
                          ("memcached", lambda: part_memcached(ctx, quick)),
                          ("edits", lambda: part_edits(ctx, store, quick)),
                          ("sedits", lambda: part_sedits(ctx, store, quick)),
+                         ("alias", lambda: part_alias(ctx, store, quick)),
                          ("duel", lambda: part_duel(ctx, store, quick)),
                          ("real_deaths", lambda: part_crash(ctx, store, quick, real=True))):
             t0 = ctx.elapsed()
@@ -1415,6 +1661,8 @@ def replay(ctx, case):
             sedit_case(ctx, store, case)
         elif part == "duel":
             duel_case(ctx, store, case)
+        elif part == "alias":
+            alias_history(ctx, store, case)
         else:
             replay_damaged(ctx, store, case)
     finally:
